@@ -77,6 +77,19 @@ func driveSlice(s *shardSet, rng *rand.Rand, thorough bool) ([]string, map[strin
 					w.SetSample(root, rng.Intn(w.Views[root].Len()), w.NextStamp())
 					w.AppendSample(child, w.NextStamp()) // lands in the shared spare capacity
 					w.AppendSample(par, w.NextStamp())
+					// a second slice with the SAME bounds is a header of its own; and a slice taken after the parent moved
+					// to new storage windows the new storage
+					if w.Slice(par, st, en) == "ok" && len(w.Views) < 9 {
+						twin := len(w.Views) - 1
+						w.AppendSample(twin, w.NextStamp())
+						if rng.Intn(3) == 0 {
+							big := w.filledRoot(ty, sh.ch, sh.k+2)
+							w.Append(par, big)
+							if w.Slice(par, st, en) == "ok" && w.Views[len(w.Views)-1].Len() > 0 {
+								w.SetSample(len(w.Views)-1, 0, w.NextStamp())
+							}
+						}
+					}
 					// nested slicing composes
 					c2 := w.Views[child].Capacity()
 					a := rng.Intn(c2 + 1)
@@ -208,6 +221,20 @@ func driveAppend(s *shardSet, rng *rand.Rand, thorough bool) ([]string, map[stri
 			}
 		}
 	}
+	for _, wf := range []struct {
+		ty string
+		ch int
+	}{{"float64", 32}, {"float32", 64}, {"int64", 16}, {"float64", 64}, {"int16", 64}, {"uint64", 48}} {
+		for _, fr := range []int{1, 3, 10, 13} {
+			w := s.Next()
+			w.Reset()
+			w.Alloc(wf.ty, wf.ch, 0, rng.Intn(2))
+			src := w.filledRoot(wf.ty, wf.ch, fr)
+			w.Append(0, src) // reallocates: the capacity must be whole frames
+			w.Append(0, src)
+			w.AppendSample(0, w.NextStamp())
+		}
+	}
 	driveBigAppend(s, rng, thorough)
 	return types, map[string]int{"appends_that_grew": grew, "appends_in_place": inplace}
 }
@@ -239,6 +266,9 @@ func driveAppendSample(s *shardSet, rng *rand.Rand, thorough bool) ([]string, ma
 						if w.Slice(root, off, off+l) == "ok" {
 							win = len(w.Views) - 1
 						}
+					}
+					if ch > 0 && w.Views[win].Len()%ch == 0 { // a view over exactly the readable range is a header of its own
+						w.Slice(win, 0, w.Views[win].Length())
 					}
 					calls := w.Views[win].Cap() - w.Views[win].Len() + 3 + rng.Intn(4)
 					for i := 0; i < calls; i++ {
